@@ -451,6 +451,12 @@ pub fn c10log(s: &mut Sess, rng: &mut Rng, n: u64, thorough: bool) {
         for i in 0..rng.range(1, 4) { step(s, format!("put {} ={}", hx(&[b'a' + (i % 3) as u8]), hx(&[b'x' + rng.below(3) as u8; 3])), &mut states); }
         // make a snapshot exist (explicit checkpoint, or restart which checkpoints after replay) — or not
         match rng.below(3) { 0 => { s.op("checkpoint"); } 1 => { s.op("close"); s.op("open"); } _ => {} }
+        // a long record among the uncheckpointed ones: payload = key + 45 bytes — exactly 64 KiB, 128 KiB,
+        // one more, one less, or just past the 8 KiB buffer
+        if i % 5 == 2 {
+            let len = *rng.pick(&[65_491usize, 65_490, 65_492, 131_027, 8_200]);
+            step(s, format!("put {} =4c", hx(&vec![b'k'; len])), &mut states);
+        }
         for i in 0..rng.range(1, 5) {
             let k = [b'a' + rng.below(3) as u8];
             let l = if rng.chance(1, 4) { format!("remove {}", hx(&k)) } else { format!("put {} ={}", hx(&k), hx(&vec![b'p' + (i % 5) as u8; 1 + rng.below(6) as usize])) };
@@ -485,7 +491,9 @@ pub fn c10log(s: &mut Sess, rng: &mut Rng, n: u64, thorough: bool) {
             }
         }
         s.out.add("c10log.damageable-bytes", targets.len() as u64);
-        let picks: Vec<(u64, usize, u64)> = if thorough || targets.len() <= 24 { targets.clone() } else { (0..24).map(|_| targets[rng.below(targets.len() as u64) as usize]).collect() };
+        // every byte when that is affordable, a sample otherwise (a long record has tens of thousands)
+        let picks: Vec<(u64, usize, u64)> = if targets.len() <= 24 || (thorough && targets.len() <= 800) { targets.clone() }
+            else { (0..if thorough { 120 } else { 24 }).map(|_| targets[rng.below(targets.len() as u64) as usize]).collect() };
         // `first_bad` = version of the first record that is damaged or missing: a successful open
         // must show EXACTLY the state after the operations below that version
         let mut judge = |s: &mut Sess, what: String, first_bad: u64| {
